@@ -177,6 +177,30 @@ impl StateSpec {
         fill(s.stack_mut::<bool>(), self.bools.clone(), self.bool_max);
         s
     }
+    /// The same state configured through the generated builder alone (only for states within their limits): junk
+    /// per-stack sizes first, then the common size, then individual sizes only where they differ from the common one -
+    /// the size set last is the one in effect -, then contents, program, inputs.  `None`: the builder refused.
+    pub fn build_via_builder(&self) -> Option<PushState> {
+        let rev = |v: &Vec<i64>| -> Vec<i64> { let mut w = v.clone(); w.reverse(); w };
+        let mut b = PushState::builder()
+            .with_int_max_size(usize::MAX / 3).with_float_max_size(1).with_bool_max_size(0)
+            .with_max_stack_size(self.exec_max);
+        if self.int_max != self.exec_max { b = b.with_int_max_size(self.int_max); }
+        if self.float_max != self.exec_max { b = b.with_float_max_size(self.float_max); }
+        if self.bool_max != self.exec_max { b = b.with_bool_max_size(self.bool_max); }
+        let mut fl: Vec<OrderedFloat<f64>> = self.floats.iter().map(|f| OrderedFloat(*f)).collect(); fl.reverse();
+        let mut bl = self.bools.clone(); bl.reverse();
+        let mut prog = self.exec.clone(); prog.reverse();
+        let mut b = b.with_int_values(rev(&self.ints)).ok()?.with_float_values(fl).ok()?.with_bool_values(bl).ok()?.with_program(prog).ok()?;
+        for (n, v) in &self.inputs {
+            b = match v {
+                LitV::I(x) => b.with_int_input(n, *x),
+                LitV::F(x) => b.with_float_input(n, OrderedFloat(*x)),
+                LitV::B(x) => b.with_bool_input(n, *x),
+            };
+        }
+        Some(b.with_instruction_step_limit(self.max_steps).build())
+    }
     pub fn request_body(&self) -> String {
         format!(
             "{} {} {} {} {} | {} | {} | {} | {} | {}",
@@ -785,6 +809,23 @@ pub fn run_run(cfg: &Cfg) -> Report {
             if !within {
                 r.violate(json!({"prop": "C03", "case": req, "real": real, "what": "a stack holds more elements than its configured maximum after the run"}));
             }
+            if l == spec.max_steps && sp.wf() {
+                // the same machine configured through the builder alone is the same machine
+                let direct = sp.build();
+                match std::panic::catch_unwind(std::panic::AssertUnwindSafe(|| sp.build_via_builder())) {
+                    Ok(Some(built)) => {
+                        if built != direct || dump(&built) != dump(&direct)
+                            || built.stack::<i64>().max_stack_size() != sp.int_max || built.stack::<OrderedFloat<f64>>().max_stack_size() != sp.float_max
+                            || built.stack::<bool>().max_stack_size() != sp.bool_max || built.stack::<PushProgram>().max_stack_size() != sp.exec_max {
+                            r.violate(json!({"prop": "C01", "case": short, "real": format!("{} ; limits exec/int/float/bool = {}/{}/{}/{}", dump(&built), built.stack::<PushProgram>().max_stack_size(), built.stack::<i64>().max_stack_size(), built.stack::<OrderedFloat<f64>>().max_stack_size(), built.stack::<bool>().max_stack_size()),
+                                "spec": format!("{} ; limits {}/{}/{}/{}", dump(&direct), sp.exec_max, sp.int_max, sp.float_max, sp.bool_max),
+                                "what": "the initial state configured through the builder (junk per-stack sizes, then the common size, then the differing sizes; contents; program; inputs) is not the configured state: the program would run under other limits / contents"}));
+                        }
+                    }
+                    Ok(None) => r.violate(json!({"prop": "C01", "case": short, "real": "the builder reported an overflow", "what": "the builder refused contents that fit the configured limits"})),
+                    Err(_) => r.violate(json!({"prop": "C01", "case": short, "real": "panic", "what": "the builder panicked"})),
+                }
+            }
             if l == spec.max_steps {
                 if let Some(what) = reread_oracle(&sp) {
                     r.violate(json!({"prop": "C01", "case": short, "real": real, "what": what}));
@@ -830,7 +871,7 @@ pub fn run_det(cfg: &Cfg) -> Report {
     let inv = Inv::new();
     let n: u64 = if cfg.thorough { 20_000 } else { 1_000 };
     let seed = cfg.seed;
-    run_sharded(&cfg.driver, cfg.threads, n, || Report::new("push-det", RULE_DET), |d, r, idx| {
+    let mut rep = run_sharded(&cfg.driver, cfg.threads, n, || Report::new("push-det", RULE_DET), |d, r, idx| {
         let mut g = SplitMix::derive(seed ^ 0x16, idx);
         let fl = floats();
         // plain names, and names that differ only in letter case / by a prefix (a lookup that normalises or
@@ -877,5 +918,70 @@ pub fn run_det(cfg: &Cfg) -> Report {
         r.hit(&format!("inputs {k} permutations {}", perms.len()));
         if idx % 199 == 0 { r.sample(json!({"request": req, "real": real})); }
         if real != model { r.disagree(json!({"case": req, "real": real, "impl": model})); }
-    })
+    });
+    name_history(&mut rep);
+    rep
+}
+
+/// Evaluation depends on the program, the input values and the limits - not on what else the process did before or on
+/// which thread the pieces were made: the same program value (its variable names created once, at the start) is
+/// evaluated with freshly declared inputs (a) at once, (b) after thousands of other names came and went,
+/// (c) with the state built on another thread, (d) with the whole evaluation on another thread.  Model-free.
+fn name_history(rep: &mut Report) {
+    let mut prog: Vec<PushProgram> = vec![
+        PushProgram::Instruction(VariableName::from("x").into()),
+        PushProgram::Instruction(VariableName::from("speed").into()),
+        PushProgram::Instruction(IntInstruction::Add.into()),
+        PushProgram::Block(vec![PushProgram::Instruction(VariableName::from("x").into()), PushProgram::Instruction(IntInstruction::Multiply.into())]),
+    ];
+    prog.reverse();
+    let spec = StateSpec { max_steps: 50, exec_max: 16, int_max: 8, float_max: 4, bool_max: 4, exec: prog, ints: vec![], floats: vec![], bools: vec![],
+        inputs: vec![("x".into(), LitV::I(5)), ("speed".into(), LitV::I(8))] };
+    let run = |sp: &StateSpec| norm(&real_run(sp).0);
+    let first = run(&spec);
+    rep.case("name history: fresh", true);
+    if !first.starts_with("ok |  | 65 ") && !first.contains("| 65 |") {
+        rep.violate(json!({"prop": "C16", "case": "program x speed Add (x Multiply) with x = 5, speed = 8", "real": first, "what": "the program does not evaluate to 65"}));
+    }
+    // (b) many other names are created, used and dropped
+    let mut keep = Vec::new();
+    for i in 0..6000u32 {
+        let name = format!("v{i}");
+        let sp = StateSpec { max_steps: 3, exec_max: 4, int_max: 4, float_max: 1, bool_max: 1,
+            exec: vec![PushProgram::Instruction(VariableName::from(name.as_str()).into())], ints: vec![], floats: vec![], bools: vec![], inputs: vec![(name.clone(), LitV::I(i as i64))] };
+        if i % 1000 == 0 {
+            let got = run(&sp);
+            if !got.contains(&format!("| {i} |")) { rep.violate(json!({"prop": "C16", "case": format!("input {name} = {i}, program [{name}]"), "real": got, "what": "a declared input was not pushed"})); }
+        } else { let _ = sp.build(); }
+        if i % 7 == 0 { keep.push(VariableName::from(name.as_str())); }
+    }
+    let later = run(&spec);
+    rep.case("name history: after 6000 other names", true);
+    if later != first {
+        rep.violate(json!({"prop": "C16", "case": "the same program value and input values, evaluated again after 6000 other input names were created in the process", "first": first, "other": later,
+            "what": "the result of an evaluation depends on what the process did before (names are compared by something other than their text?)"}));
+    }
+    drop(keep);
+    // (c) state (and so the input declarations) built on another thread, evaluated here; (d) everything on another thread
+    let sp2 = spec.clone();
+    let built_elsewhere = std::thread::spawn(move || std::panic::catch_unwind(std::panic::AssertUnwindSafe(|| sp2.build())).ok()).join().ok().flatten();
+    rep.case("name history: state built on another thread", true);
+    match built_elsewhere {
+        Some(st) => {
+            let r = std::panic::catch_unwind(std::panic::AssertUnwindSafe(move || st.run_to_completion()));
+            let got = match r { Ok(Ok(s2)) => norm(&format!("ok | {}", dump(&s2))), Ok(Err(_)) => "fatal".into(), Err(_) => "panic".into() };
+            if got != first {
+                rep.violate(json!({"prop": "C16", "case": "program value made on this thread, state (input declarations) built on another thread", "first": first, "other": got,
+                    "what": "the result of an evaluation depends on the thread on which the inputs were declared"}));
+            }
+        }
+        None => rep.violate(json!({"prop": "C16", "case": "state built on another thread", "what": "building the state panicked"})),
+    }
+    let sp3 = spec.clone();
+    let elsewhere = std::thread::spawn(move || norm(&real_run(&sp3).0)).join().unwrap_or_else(|_| "panic".into());
+    rep.case("name history: evaluated on another thread", true);
+    if elsewhere != first {
+        rep.violate(json!({"prop": "C16", "case": "program value made on this thread, state built and evaluated on another thread", "first": first, "other": elsewhere,
+            "what": "the result of an evaluation depends on the thread"}));
+    }
 }
